@@ -157,13 +157,18 @@ class Facts:
         self.close()
         return [(b, k) for (x, b), k in self.d.items() if x == a]
 
-    def kill(self, path: str) -> None:
-        hit = any(mentions(a, path) or mentions(b, path) for (a, b) in self.d) or \
-            any(mentions(a, path) or mentions(b, path) for (a, b, _) in self.ne)
+    def kill(self, path: str, keep_len: bool = False) -> None:
+        """Forget everything that mentions `path`.  keep_len: the store replaces an element (or a field of an element) of the
+        container at `path` - its length is unchanged, so the term len(path) survives."""
+        ln = f"len({path})" if keep_len else None
+
+        def m(t: str) -> bool:
+            return t != ln and mentions(t, path)
+        hit = any(m(a) or m(b) for (a, b) in self.d) or any(m(a) or m(b) for (a, b, _) in self.ne)
         if hit:
             self.close()
-            self.d = {(a, b): k for (a, b), k in self.d.items() if not mentions(a, path) and not mentions(b, path)}
-            self.ne = {(a, b, c) for (a, b, c) in self.ne if not mentions(a, path) and not mentions(b, path)}
+            self.d = {(a, b): k for (a, b), k in self.d.items() if not m(a) and not m(b)}
+            self.ne = {(a, b, c) for (a, b, c) in self.ne if not m(a) and not m(b)}
         if self.preds:
             self.preds = {(t, p) for (t, p) in self.preds if not mentions(t, path)}
 
@@ -401,6 +406,15 @@ def store_targets(s: ast.AST) -> list[ast.AST]:
     return out
 
 
+def _is_element_store(t: ast.AST) -> bool:
+    """`X[i] = v` or `X[i].field = v` (no slice): the container X keeps its length."""
+    q = t
+    while isinstance(q, ast.Attribute):
+        q = q.value
+    return isinstance(q, ast.Subscript) and not isinstance(q.slice, ast.Slice) and q is not t or \
+        (isinstance(t, ast.Subscript) and not isinstance(t.slice, ast.Slice))
+
+
 def kill_path_of_target(t: ast.AST) -> str | None:
     """Access path whose terms die when `t` is stored to: a name, a dotted attribute path, or - for a subscript
     store - the container's path."""
@@ -544,6 +558,9 @@ class FactsProblem(Problem):
                 if kp is None:
                     continue
                 tt = U(t)
+                if _is_element_store(t):
+                    z.kill(kp, keep_len=True)
+                    continue
                 if simple and r is not None and kp == tt:
                     rterm = T(r[0])
                     if rterm == tt:
@@ -654,6 +671,12 @@ class FactsProblem(Problem):
     @staticmethod
     def _range_facts(z: Facts, f: ast.For) -> None:
         it = f.iter
+        # reversed(range(..)) / range(..)[::-1] run over the same values
+        if isinstance(it, ast.Call) and isinstance(it.func, ast.Name) and it.func.id == "reversed" and len(it.args) == 1:
+            it = it.args[0]
+        if isinstance(it, ast.Subscript) and isinstance(it.slice, ast.Slice) and it.slice.lower is None and it.slice.upper is None \
+                and it.slice.step is not None and U(it.slice.step) == "-1":
+            it = it.value
         if isinstance(f.target, ast.Name) and isinstance(it, ast.Call) and isinstance(it.func, ast.Name) \
                 and it.func.id == "range" and not it.keywords and 1 <= len(it.args) <= 2:
             v = f.target.id
